@@ -153,3 +153,80 @@ pub fn tcp_client(
 pub fn filter_matches(filter: &crate::server::AddressFilter, addr: std::net::IpAddr) -> bool {
     filter.matches(addr)
 }
+
+/// Cooperative scheduling seam: lets the harness decide, at every acquisition of a handler
+/// mutex and at every point read, which thread runs next
+pub mod sched {
+    use std::sync::{Arc, RwLock};
+
+    /// Where a thread is when it calls into the scheduler
+    #[derive(Copy, Clone, Debug, PartialEq, Eq)]
+    pub enum Point {
+        /// about to try to acquire a handler mutex
+        Lock,
+        /// about to read the point with this address from a database
+        Read(u16),
+        /// a point defined by the harness itself (e.g. between two writes of a transaction)
+        User(u16),
+    }
+
+    /// Implemented by the harness
+    pub trait Scheduler: Send + Sync {
+        /// the calling thread has reached `point`; returns when it may continue
+        fn point(&self, point: Point);
+        /// the calling thread found the mutex taken; returns when it may try again
+        fn blocked(&self);
+    }
+
+    static CURRENT: RwLock<Option<Arc<dyn Scheduler>>> = RwLock::new(None);
+
+    /// Install (or remove) the process-wide scheduler
+    pub fn install(scheduler: Option<Arc<dyn Scheduler>>) {
+        *CURRENT.write().unwrap() = scheduler;
+    }
+
+    /// The scheduler currently installed
+    pub fn current() -> Option<Arc<dyn Scheduler>> {
+        CURRENT.read().unwrap().clone()
+    }
+
+    /// Announce a scheduling point (no-op without a scheduler)
+    pub fn point(point: Point) {
+        if let Some(s) = current() {
+            s.point(point);
+        }
+    }
+}
+
+/// Synchronisation seam
+pub mod sync {
+    use super::sched::{self, Point};
+    use std::sync::{Arc, LockResult, Mutex, MutexGuard, TryLockError};
+
+    /// Takes precedence over `Mutex::lock` on an `Arc<Mutex<T>>` wherever it is in scope.
+    ///
+    /// Without a scheduler installed this is exactly `Mutex::lock`. With one, acquiring the
+    /// mutex becomes a scheduling point and a taken mutex is reported to the scheduler instead
+    /// of blocking the thread in the kernel.
+    pub trait LockExt<T> {
+        /// acquire the mutex
+        fn lock(&self) -> LockResult<MutexGuard<'_, T>>;
+    }
+
+    impl<T> LockExt<T> for Arc<Mutex<T>> {
+        fn lock(&self) -> LockResult<MutexGuard<'_, T>> {
+            let scheduler = match sched::current() {
+                None => return Mutex::lock(self),
+                Some(x) => x,
+            };
+            loop {
+                scheduler.point(Point::Lock);
+                match Mutex::try_lock(self) {
+                    Ok(guard) => return Ok(guard),
+                    Err(TryLockError::Poisoned(err)) => return Err(err),
+                    Err(TryLockError::WouldBlock) => scheduler.blocked(),
+                }
+            }
+        }
+    }
+}
